@@ -240,3 +240,18 @@ Lemma example_run :
   oracle example_history (run example_history) = true /\
   (exists s, state_after example_history = Some s /\ size (s_conns s) = 2 /\ size (s_ids s) = 3).
 Proof. vm_compute. repeat split; try reflexivity. eexists. repeat split; reflexivity. Qed.
+
+(** Regression (seed sweep): with zero-length CIDs an Incoming from a tuple that a live server
+    connection owns takes the tuple over when accepted; if its first packet is then rejected the
+    short-lived connection is drained and the tuple is unowned -- the older connection does not get
+    it back ("last claimant keeps the tuple").  The ledger records the short-lived claimant. *)
+Definition takeover_history : ops :=
+  [[0; 0; 0]; [2; 1; 4; 0; 0; 0; 8; 1; 1; 1; 1; 1; 1; 1; 1]; [3; 0; 0; 0];
+   [2; 0; 4; 0; 0; 0; 0];
+   [2; 1; 4; 0; 0; 1; 8; 2; 2; 2; 2; 2; 2; 2; 2]; [3; 1; 0; 0];
+   [2; 0; 4; 0; 0; 0; 0]].
+
+Lemma takeover_run :
+  run takeover_history = [[0]; [2; 0]; [0; 0]; [1; 0]; [2; 1]; [1; 3]; [0; 0]] /\
+  oracle takeover_history (run takeover_history) = true.
+Proof. vm_compute. split; reflexivity. Qed.
